@@ -755,6 +755,7 @@ func main() {
 	sb.WriteString("Definition r_bad_model := Eval vm_compute in bad_model cases.\nPrint r_bad_model.\n")
 	sb.WriteString("Definition r_bad_monitor := Eval vm_compute in bad_monitor cases.\nPrint r_bad_monitor.\n")
 	sb.WriteString("Definition r_nondet := Eval vm_compute in nondeterministic cases.\nPrint r_nondet.\n")
+	sb.WriteString("Definition r_diag := Eval vm_compute in diags cases.\nPrint r_diag.\n")
 	if err := os.WriteFile(filepath.Join(*out, "cases_C16.v"), []byte(sb.String()), 0o644); err != nil {
 		panic(err)
 	}
